@@ -15,36 +15,73 @@ Proof. apply ckey_eqb_eq; reflexivity. Qed.
 Lemma ckey_eqb_neq a b : a <> b -> ckey_eqb a b = false.
 Proof. intros H; destruct (ckey_eqb a b) eqn:E; auto. apply ckey_eqb_eq in E; contradiction. Qed.
 
+Lemma ckey_mem_In a l : ckey_mem a l = true <-> In a l.
+Proof.
+  induction l as [|b r IH]; cbn; [split; [discriminate|tauto]|].
+  rewrite orb_true_iff, ckey_eqb_eq, IH. split; intros [H|H]; auto.
+Qed.
+
 (* the chain of connector references from a name to a platform pin *)
 Inductive chain (cm : connmap) : pname -> Z -> Prop :=
 | chain_plat p : chain cm (Plat p) p
 | chain_step c k n' p : cm_lookup cm (c, k) = Some n' -> chain cm n' p -> chain cm (CPin c k) p.
 
-Lemma resolve_name_chain cm : forall fuel n p, resolve_name fuel cm n = MOk p -> chain cm n p.
+Lemma resolve_seen_S f cm seen c k : resolve_seen (S f) cm seen (CPin c k) =
+  match cm_lookup cm (c, k) with
+  | None => MMissing
+  | Some n' => if ckey_mem (c, k) seen then MCycle else resolve_seen f cm ((c, k) :: seen) n'
+  end.
+Proof. reflexivity. Qed.
+
+Lemma resolve_seen_chain cm : forall fuel seen n p, resolve_seen fuel cm seen n = MOk p -> chain cm n p.
 Proof.
-  induction fuel as [|f IH]; intros n p H; destruct n as [q|c k]; cbn in H.
+  induction fuel as [|f IH]; intros seen n p H; destruct n as [q|c k]; cbn in H.
   - inversion H; constructor.
   - discriminate.
   - inversion H; constructor.
-  - destruct (cm_lookup cm (c, k)) eqn:E; [|discriminate]. econstructor; eauto.
+  - destruct (cm_lookup cm (c, k)) eqn:E; [|discriminate].
+    destruct (ckey_mem (c, k) seen); [discriminate|]. econstructor; eauto.
 Qed.
+Lemma resolve_name_chain cm fuel n p : resolve_name fuel cm n = MOk p -> chain cm n p.
+Proof. apply resolve_seen_chain. Qed.
 
-Lemma chain_resolve_name cm n p : chain cm n p -> exists f, forall fuel, (f <= fuel)%nat -> resolve_name fuel cm n = MOk p.
+(* a result other than fuel exhaustion is independent of the fuel *)
+Lemma resolve_seen_fuel_mono cm : forall fuel seen n r, resolve_seen fuel cm seen n = r -> r <> MLoop ->
+  forall k, resolve_seen (fuel + k) cm seen n = r.
 Proof.
-  induction 1 as [q|c k n' p E _ [f IH]].
-  - exists O; intros [|fuel] _; reflexivity.
-  - exists (S f); intros [|fuel] Hf; [lia|]. cbn. rewrite E. apply IH; lia.
-Qed.
-
-(* a result other than "does not terminate" is independent of the fuel *)
-Lemma resolve_name_fuel_mono cm : forall fuel n r, resolve_name fuel cm n = r -> r <> MLoop ->
-  forall k, resolve_name (fuel + k) cm n = r.
-Proof.
-  induction fuel as [|f IH]; intros n r H Hr k; destruct n as [q|c q]; cbn in H.
+  induction fuel as [|f IH]; intros seen n r H Hr k; destruct n as [q|c q]; cbn in H.
   - destruct (0 + k)%nat; exact H.
   - congruence.
   - exact H.
-  - cbn. destruct (cm_lookup cm (c, q)); auto.
+  - cbn. destruct (cm_lookup cm (c, q)); auto. destruct (ckey_mem (c, q) seen); auto.
+Qed.
+Lemma resolve_name_fuel_mono cm fuel n r : resolve_name fuel cm n = r -> r <> MLoop ->
+  forall k, resolve_name (fuel + k) cm n = r.
+Proof. apply resolve_seen_fuel_mono. Qed.
+
+(* termination for EVERY connector table: the seen set holds distinct keys of the table, so the loop
+   body runs at most |cm| + 1 times and the fuel cm_fuel is never exhausted *)
+Lemma cm_lookup_In cm k v : cm_lookup cm k = Some v -> In k (map fst cm).
+Proof.
+  induction cm as [|[k' v'] r IH]; cbn; [discriminate|].
+  destruct (ckey_eqb k' k) eqn:E; [apply ckey_eqb_eq in E; auto|auto].
+Qed.
+Lemma resolve_seen_terminates cm : forall fuel seen n, NoDup seen ->
+  (forall s, In s seen -> In s (map fst cm)) -> (length cm < fuel + length seen)%nat ->
+  resolve_seen fuel cm seen n <> MLoop.
+Proof.
+  induction fuel as [|f IH]; intros seen n Hnd Hdom Hlen; destruct n as [q|c q]; try (cbn; discriminate).
+  - exfalso. pose proof (NoDup_incl_length Hnd Hdom) as Hle. rewrite map_length in Hle. cbn in Hlen. lia.
+  - rewrite resolve_seen_S. destruct (cm_lookup cm (c, q)) as [n'|] eqn:E; [|discriminate].
+    destruct (ckey_mem (c, q) seen) eqn:Em; [discriminate|].
+    apply IH.
+    + constructor; auto. rewrite <- ckey_mem_In. congruence.
+    + intros s [<-|Hs]; [eapply cm_lookup_In; eauto|auto].
+    + cbn [length]. lia.
+Qed.
+Lemma resolve_terminates cm n : resolve_name (cm_fuel cm) cm n <> MLoop.
+Proof.
+  apply resolve_seen_terminates; [constructor|intros s []|]. unfold cm_fuel. cbn. lia.
 Qed.
 
 (* acyclic table: connector references strictly decrease some rank *)
@@ -56,87 +93,55 @@ Definition closed (cm : connmap) : Prop :=
 Definition present (cm : connmap) (n : pname) : Prop :=
   match n with Plat _ => True | CPin c k => cm_lookup cm (c, k) <> None end.
 
-Definition cm_remove (k : ckey) (cm : connmap) : connmap := filter (fun e => negb (ckey_eqb (fst e) k)) cm.
-
-Lemma cm_lookup_remove_other k k2 : k2 <> k -> forall cm, cm_lookup (cm_remove k cm) k2 = cm_lookup cm k2.
-Proof.
-  intros Hne; induction cm as [|[k' v] r IH]; cbn; [reflexivity|].
-  destruct (ckey_eqb k' k) eqn:E; cbn.
-  - apply ckey_eqb_eq in E; subst k'. rewrite (ckey_eqb_neq k k2) by congruence. exact IH.
-  - destruct (ckey_eqb k' k2); auto.
-Qed.
-Lemma cm_remove_length k : forall cm, (length (cm_remove k cm) <= length cm)%nat.
-Proof. unfold cm_remove. induction cm as [|[k' v] r IH]; cbn; [lia|]. destruct (negb (ckey_eqb k' k)); cbn; lia. Qed.
-Lemma cm_remove_length_lt k : forall cm v, cm_lookup cm k = Some v -> (length (cm_remove k cm) < length cm)%nat.
-Proof.
-  induction cm as [|[k' v'] r IH]; cbn; intros v H; [discriminate|].
-  destruct (ckey_eqb k' k) eqn:E; cbn.
-  - pose proof (cm_remove_length k r). unfold cm_remove in *. lia.
-  - specialize (IH _ H). unfold cm_remove in *. lia.
-Qed.
-
 Definition below (rank : ckey -> nat) (n : pname) (k : ckey) : Prop :=
   match n with Plat _ => True | CPin c q => (rank (c, q) < rank k)%nat end.
 
-Lemma resolve_remove cm rank key :
+Lemma resolve_seen_acyclic cm rank :
   (forall k c' k', cm_lookup cm k = Some (CPin c' k') -> (rank (c', k') < rank k)%nat) ->
-  forall fuel n, below rank n key -> resolve_name fuel cm n = resolve_name fuel (cm_remove key cm) n.
+  forall fuel seen n, (forall s, In s seen -> below rank n s) -> resolve_seen fuel cm seen n <> MCycle.
 Proof.
-  intros Hr; induction fuel as [|f IH]; intros n Hb; destruct n as [q|c q]; cbn; auto.
-  cbn in Hb. assert (Hne : (c, q) <> key) by (intros E0; rewrite E0 in Hb; lia).
-  rewrite (cm_lookup_remove_other key (c, q) Hne).
-  destruct (cm_lookup cm (c, q)) as [n'|] eqn:E; auto.
-  apply IH. destruct n' as [|c' k']; cbn; auto. specialize (Hr _ _ _ E). lia.
+  intros Hr; induction fuel as [|f IH]; intros seen n Hb; destruct n as [q|c q]; try (cbn; discriminate).
+  rewrite resolve_seen_S. destruct (cm_lookup cm (c, q)) as [n'|] eqn:E; [|discriminate].
+  destruct (ckey_mem (c, q) seen) eqn:Em.
+  - exfalso. apply ckey_mem_In in Em. specialize (Hb _ Em). cbn in Hb. lia.
+  - apply IH. intros s Hs. destruct n' as [|c' k']; cbn; auto.
+    specialize (Hr _ _ _ E). destruct Hs as [<-|Hs]; [exact Hr|]. specialize (Hb _ Hs). cbn in Hb. lia.
 Qed.
+Lemma resolve_acyclic_nocycle cm n : acyclic cm -> resolve_name (cm_fuel cm) cm n <> MCycle.
+Proof. intros [rank Hr]. apply (resolve_seen_acyclic cm rank Hr). intros s []. Qed.
 
-Lemma resolve_name_S f cm c k : resolve_name (S f) cm (CPin c k) =
-  match cm_lookup cm (c, k) with None => MMissing | Some n' => resolve_name f cm n' end.
-Proof. reflexivity. Qed.
-
-Lemma resolve_noloop_len : forall len cm rank, (length cm <= len)%nat ->
-  (forall k c' k', cm_lookup cm k = Some (CPin c' k') -> (rank (c', k') < rank k)%nat) ->
-  forall n, resolve_name (S len) cm n <> MLoop.
+Lemma resolve_closed_found cm : closed cm -> forall fuel seen n, present cm n -> resolve_seen fuel cm seen n <> MMissing.
 Proof.
-  induction len as [|len IH]; intros cm rank Hlen Hr n; destruct n as [q|c q]; try (cbn; discriminate);
-    rewrite resolve_name_S.
-  - destruct cm; [cbn; discriminate|cbn in Hlen; lia].
-  - destruct (cm_lookup cm (c, q)) as [n'|] eqn:E; [|discriminate].
-    assert (Hb : below rank n' (c, q)) by (destruct n' as [|c' k']; cbn; auto; exact (Hr _ _ _ E)).
-    rewrite (resolve_remove cm rank (c, q) Hr (S len) n' Hb).
-    apply (IH (cm_remove (c, q) cm) rank).
-    + pose proof (cm_remove_length_lt (c, q) cm n' E). lia.
-    + intros k c' k' Hl.
-      destruct (ckey_eqb k (c, q)) eqn:Ek.
-      * apply ckey_eqb_eq in Ek; subst k. exfalso. clear - Hl.
-        induction cm as [|[k2 v] r IHr]; cbn in Hl; [discriminate|].
-        destruct (ckey_eqb k2 (c, q)) eqn:E2; cbn in Hl; auto.
-        rewrite E2 in Hl. auto.
-      * rewrite cm_lookup_remove_other in Hl; [eauto|]. intros ->. rewrite ckey_eqb_refl in Ek; discriminate.
-Qed.
-
-Lemma resolve_acyclic_noloop cm n : acyclic cm -> resolve_name (cm_fuel cm) cm n <> MLoop.
-Proof. intros [rank Hr]. apply (resolve_noloop_len (length cm) cm rank); auto. Qed.
-
-Lemma resolve_closed_found cm : closed cm -> forall fuel n, present cm n -> resolve_name fuel cm n <> MMissing.
-Proof.
-  intros Hc; induction fuel as [|f IH]; intros n Hp; destruct n as [q|c q]; cbn; try discriminate.
-  cbn in Hp. destruct (cm_lookup cm (c, q)) as [n'|] eqn:E; [|congruence].
+  intros Hc; induction fuel as [|f IH]; intros seen n Hp; destruct n as [q|c q]; try (cbn; discriminate).
+  rewrite resolve_seen_S. cbn in Hp. destruct (cm_lookup cm (c, q)) as [n'|] eqn:E; [|congruence].
+  destruct (ckey_mem (c, q) seen); [discriminate|].
   apply IH. destruct n' as [|c' k']; cbn; auto. eapply Hc; eauto.
+Qed.
+
+(* resolution always terminates: at a platform pin reached along the chain, or with NameError
+   (dangling reference, or a connector pin reached a second time) *)
+Lemma map_names_total cm n :
+  (exists p, resolve_name (cm_fuel cm) cm n = MOk p /\ chain cm n p) \/
+  resolve_name (cm_fuel cm) cm n = MMissing \/ resolve_name (cm_fuel cm) cm n = MCycle.
+Proof.
+  pose proof (resolve_terminates cm n) as Hl.
+  destruct (resolve_name (cm_fuel cm) cm n) as [p| | |] eqn:E; [|auto|auto|congruence].
+  left. exists p. split; auto. eapply resolve_name_chain; eauto.
 Qed.
 
 Lemma map_names_chain cm n : acyclic cm ->
   (resolve_name (cm_fuel cm) cm n = MMissing \/ exists p, resolve_name (cm_fuel cm) cm n = MOk p /\ chain cm n p)
   /\ (closed cm -> present cm n -> exists p, resolve_name (cm_fuel cm) cm n = MOk p /\ chain cm n p).
 Proof.
-  intros Ha. pose proof (resolve_acyclic_noloop cm n Ha) as Hl.
-  destruct (resolve_name (cm_fuel cm) cm n) as [p| |] eqn:E; [| |congruence].
-  - split; [right|intros _ _]; exists p; split; auto; eapply resolve_name_chain; eauto.
-  - split; [left; reflexivity|]. intros Hc Hp. exfalso. eapply resolve_closed_found; eauto.
+  intros Ha. pose proof (resolve_acyclic_nocycle cm n Ha) as Hc.
+  destruct (map_names_total cm n) as [(p & Hp & Hch)|[Hm|Hcy]]; [| |congruence].
+  - split; [right|intros _ _]; exists p; split; auto.
+  - split; [left; exact Hm|]. intros Hcl Hp. exfalso. eapply (resolve_closed_found cm Hcl); eauto.
 Qed.
 
 Definition cyc_cm : connmap := [((0, 1), CPin 1 1); ((1, 1), CPin 0 1)].
-Lemma cyclic_loops : forall fuel, resolve_name fuel cyc_cm (CPin 0 1) = MLoop /\ resolve_name fuel cyc_cm (CPin 1 1) = MLoop.
-Proof. induction fuel as [|f [IH1 IH2]]; split; cbn; auto. Qed.
+Lemma cyclic_is_NameError : resolve_name (cm_fuel cyc_cm) cyc_cm (CPin 0 1) = MCycle.
+Proof. reflexivity. Qed.
 
 Lemma map_names_Forall2 fuel cm : forall ns l, map_names fuel cm ns = LOk l ->
   Forall2 (fun n p => resolve_name fuel cm n = MOk p) ns l.
@@ -312,19 +317,22 @@ Lemma resolve_leaf_spec fuel cm nm l d x pth attrs st st' r :
 Proof.
   unfold resolve_leaf, leaf_resolves, leaf_matches. intros H.
   destruct (l_phys l) as [ns|ps ns].
-  - destruct (map_names fuel cm ns) as [pp| |] eqn:E1.
+  - destruct (map_names fuel cm ns) as [pp| | |] eqn:E1.
     + apply leaf_finish_spec in H. destruct H as (F & H). split; auto.
       destruct r as [e|v]; [tauto|]. destruct H as (Hm & Hd & Hc & Hp & Hk).
       unfold port_pins. rewrite Hp; cbn. repeat split; auto.
     + inversion H; subst. split; [apply frame_refl|]. intros _ [pp Hp]; discriminate.
     + inversion H; subst. split; [apply frame_refl|]. intros _ [pp Hp]; discriminate.
-  - destruct (map_names fuel cm ps) as [pp| |] eqn:E1.
-    + destruct (map_names fuel cm ns) as [nn| |] eqn:E2.
+    + inversion H; subst. split; [apply frame_refl|]. intros _ [pp Hp]; discriminate.
+  - destruct (map_names fuel cm ps) as [pp| | |] eqn:E1.
+    + destruct (map_names fuel cm ns) as [nn| | |] eqn:E2.
       * apply leaf_finish_spec in H. destruct H as (F & H). split; auto.
         destruct r as [e|v]; [tauto|]. destruct H as (Hm & Hd & Hc & Hp & Hk).
         unfold port_pins. rewrite Hp; cbn. repeat split; auto.
       * inversion H; subst. split; [apply frame_refl|]. intros _ [_ [nn Hn]]; discriminate.
       * inversion H; subst. split; [apply frame_refl|]. intros _ [_ [nn Hn]]; discriminate.
+      * inversion H; subst. split; [apply frame_refl|]. intros _ [_ [nn Hn]]; discriminate.
+    + inversion H; subst. split; [apply frame_refl|]. intros _ [[pp Hp] _]; discriminate.
     + inversion H; subst. split; [apply frame_refl|]. intros _ [[pp Hp] _]; discriminate.
     + inversion H; subst. split; [apply frame_refl|]. intros _ [[pp Hp] _]; discriminate.
 Qed.
